@@ -18,6 +18,10 @@ structure Be where
   cur : Int
   conn : Int
   avail : Bool
+  final : Int := 0        -- BackendRR.weightSS.final (weight at Init, target of a slow start)
+  inSS : Bool := false    -- BackendRR.inSlowStart
+  age : Int := 0          -- seconds since weightSS.startTime (the harness controls it through a hook)
+  restart : Bool := false -- BfeBackend.restarted (set by Update for new backends and by the health checker)
 deriving Repr, DecidableEq
 
 def Be.toB (b : Be) : C04.B := { w := b.w, cur := b.cur, conn := b.conn, avail := b.avail }
@@ -54,7 +58,23 @@ structure SubSt where
   name : String
   w : Int
   bs : List Be
+  ss : Int := 0           -- BalanceRR.slowStartTime of this sub-cluster (0 for one created by Reload)
 deriving Repr, DecidableEq
+
+/-- one iteration of the loop in `checkSlowStart` (slowStartTime = `ssT` > 0):
+      if backend.GetRestart() { SetRestart(false); initSlowStart(ssT) }   -- weight = current = 1, startTime = now
+      updateSlowStart()            -- in the SAME pass: weight = final * elapsed / ssT, capped at final (then leave slow start)
+    so the `weight = 1` of initSlowStart never survives the call: the weight used for the decision is ≤ final. -/
+def ssStep (ssT : Int) (b : Be) : Be :=
+  let b1 : Be := if b.restart then { b with restart := false, inSS := true, age := 0, w := 1, cur := 1 } else b
+  if b1.inSS then
+    let w := Int.tdiv (b1.final * b1.age) ssT
+    if w ≥ b1.final then { b1 with w := b1.final, inSS := false } else { b1 with w := w }
+  else b1
+
+/-- the backend list as `checkSlowStart` leaves it (`Balance` skips it for WrrSticky) -/
+def effBs (a : Algo) (s : SubSt) : List Be :=
+  if a = .sticky ∨ s.ss ≤ 0 then s.bs else s.bs.map (ssStep s.ss)
 
 def blackholeName : String := "GSLB_BLACKHOLE"
 
@@ -100,7 +120,7 @@ def crossPart (c c1 : Cl) (cur : SubSt) (retry1 : Int) (h n : Nat) : Res × Int 
   else match randomSelectExclude c cur n with
     | none => (.err .noSubClusterCross cur.name, retry1, c1)
     | some o =>
-      match subPick c.algo o.bs h with
+      match subPick c.algo (effBs c.algo o) h with
       | (some b, bs') => (.ok o.name b, retry1, setSub c1 o.name bs')
       | (none, bs') => (.err .crossRetryBalance o.name, retry1, setSub c1 o.name bs')
 
@@ -112,7 +132,7 @@ def balance (c : Cl) (retry : Int) (h : Nat) (n : Nat) : Res × Int × Cl :=
     | some cur =>
       if cur.name == blackholeName then (.err .blackhole cur.name, retry, c)
       else if retry ≤ c.retryMax then
-        match subPick c.algo cur.bs h with
+        match subPick c.algo (effBs c.algo cur) h with
         | (some b, bs') => (.ok cur.name b, retry, setSub c cur.name bs')
         | (none, bs') => crossPart c (setSub c cur.name bs') cur c.retryMax h n   -- `req.RetryTime = bal.retryMax`
       else crossPart c c cur retry h n
@@ -158,6 +178,7 @@ def reload (c : Cl) (conf : GConf) : Cl × Bool :=
               g := { subs := toSubs l, total := total, single := single
                      avail := if single then C02.lastPos (toSubs l) 0 0 else c.g.avail } }, true)
 
-def hasElig (s : SubSt) : Bool := s.bs.any elig
+/-- an eligible backend exists once `checkSlowStart` has run -/
+def hasElig (a : Algo) (s : SubSt) : Bool := (effBs a s).any elig
 
 end BfeVerif.C03
